@@ -78,9 +78,14 @@ infers for the reduced vector) and STORES the free and the fixed values into it.
 so that every statement of this file about `projectUp` / `objectFunc` / `runWrapper` holds for integer-typed inputs too.  They fail to
 check when the output inherits an integer element type (e.g. `numpy.empty_like(pin, shape=…)`): `DType.int.store (1/4) = 0`. -/
 
-/-- expanding stores every value exactly: the typed projection is `projectUp`, for every element type of the reduced vector -/
+/-- the array `_project_params_up` allocates for its output keeps every value stored into it exactly, whatever the element type of
+    the reduced vector (read off the allocation statement of the current source: `upOutDtype`) -/
+theorem C12_up_store (dt : DType) (x : ℚ) : (upOutDtype dt).store x = x := by
+  cases dt <;> simp [upOutDtype, DType.store]
+
+/-- … so the typed projection is `projectUp`, for every element type of the reduced vector -/
 theorem C12_up_dtype (dt : DType) (free : List ℚ) (fixed : Fixed) : projectUpT dt free fixed = projectUp free fixed :=
-  projectUpT_eq dt free fixed
+  projectUpT_eq C12_up_store dt free fixed
 
 /-- expand ∘ contract is the identity on INTEGER vectors carrying non-integer fixed values, too -/
 theorem C12_up_down_id_typed (dt : DType) (fixed : Fixed) (full : List ℚ) (h : full.length = fixed.length)
@@ -100,12 +105,12 @@ example : DType.int.store (1/4) = 0 ∧ DType.int.store (-3/2) = -1 ∧ DType.in
 /-- `_object_func` on a parameter vector of any element type (a grid written with integers hands over integer arrays) -/
 theorem C12_objective_dtype (dt : DType) (lower upper : Option Bounds) (fixed : Option Fixed) (s : ℚ) (m : ModelFn) (params : List ℚ) :
     objectFuncT dt lower upper fixed s m params = objectFunc lower upper fixed s m params :=
-  objectFuncT_eq dt lower upper fixed s m params
+  objectFuncT_eq C12_up_store dt lower upper fixed s m params
 
 /-- a whole wrapper run, whatever the element types of the caller's `p0`, of the optimiser's queries and of its answer -/
 theorem C12_run_dtype (dp dq da : DType) (w : Wrapper) (expF logF : ℚ → ℚ) (pb : Problem) (m : ModelFn) (opt : Opt) (fuel : ℕ) :
     runWrapperT dp dq da w expF logF pb m opt fuel = runWrapper w expF logF pb m opt fuel :=
-  runWrapperT_eq dp dq da w expF logF pb m opt fuel
+  runWrapperT_eq C12_up_store dp dq da w expF logF pb m opt fuel
 
 /-! ## `_object_func`: bound check before the model, sentinel outside -/
 
